@@ -24,7 +24,8 @@ RULE = ("(flat) EXHAUSTIVE: every operator sequence of length 1..4 over + - * / 
         "rendering. (literals) EXHAUSTIVE literal formats x suffixes vs exact Fractions. (invalid) strings made "
         "ungrammatical by construction must raise UnableToParse/UnbalancedBrackets. (case) a case-variant of a bound "
         "name must be rejected as undefined. (verdict) Numerical/FormulaGrader verdicts on constant expressions. "
-        "Distinct by spec hash.")
+        "Distinct by spec hash."
+        " 'not-numbers' (exhaustive): strings other number parsers accept (1_0, 0x10, digits of other scripts, inf / nan words) and default names used while an explicitly empty table is supplied: never a value. Every tree is also evaluated with numpy-scalar bindings and in a second scope (other values, other suffix multipliers). 'trees-fuzz' / 'invalid-fuzz' (thorough): coverage-guided campaigns over the same strategies and oracles.")
 ASSUMPTIONS = ["value comparison tolerance 1e-9*max(1,|ref|,largest intermediate); cases with |intermediate|>1e12, "
                "within 1e-9 of a branch cut/pole, or ill-conditioned under a 1e-12 perturbation are discarded",
                "exact zeros in '||' and zero bases of '^' are discarded (C15/C02 territory)",
